@@ -3,6 +3,13 @@
 From Coq Require Import List ZArith Bool.
 From AV Require Import Engine.Core Engine.Sem Engine.Eval Engine.Validate Engine.Naive Engine.Interface Engine.InterfaceAgg Engine.Main Engine.MainAgg Engine.SemiNaiveAgg.
 From AV Require Import Engine.ParStep Engine.InterfacePar Engine.MainPar.
+From AV Require Import Engine.Strat Engine.StratFixed Engine.EvalSpecAgg Engine.ParProofsAgg.
+From AV Require LatEngine.LatSyntax.
+From AV Require LatEngine.LatEval.
+From AV Require LatEngine.LatKeys.
+From AV Require LatEngine.LatSem.
+From AV Require Engine.ParLat.
+From AV Require Engine.ParLatProofs.
 Import ListNotations.
 
 (* every input row is still there, unmodified and in place; evaluation appends only tuples that were absent, each once *)
@@ -34,9 +41,51 @@ Theorem c05_parallel_rows_added_once : forall (I : interp) swap arities P pl F0 
   exists added, rows st = F0 ++ added /\ NoDup added /\ (forall f, In f added -> ~ In f F0).
 Proof. intros I swap arities P pl F0 st H1 H2 H3 H4 H5. exact (proj2 (par_run_correct_full I swap arities P pl F0 st H1 H2 H3 H4 H5)). Qed.
 
-(* PARTIAL: lattice keys (one row per key, serial) are C03's c03_unique_key; the parallel lattice protocol (key
-   mutex + re-check) and parallel runs with aggregates are exercised by the ties of C02 / C05 but are not theorems;
-   the real DashMap entry operation is assumed atomic (C19 proves the one-winner property for every interleaving of
-   the modelled atomic steps: Props/C19.v c19_cfi_concurrent_one_winner). *)
+(* ... and with aggregation / negation: every parallel run on duplicate-free input leaves duplicate-free rows, inputs in place *)
+Theorem c05_parallel_rows_are_a_set : forall (I : interp) swap arities P pl F0 st,
+  arities_functional arities -> wf_facts arities F0 = true -> NoDup F0 -> agg_perm_invariant I ->
+  validate arities P pl = true ->
+  par_run_plan I swap pl (init_state F0) st ->
+  NoDup (rows st) /\ exists added, rows st = F0 ++ added.
+Proof.
+  intros I swap arities P pl F0 st H1 H2 H3 H4 H5 H6.
+  exact (proj2 (proj2 (proj2 (par_run_strat_correct I swap (eval_variant_spec_agg I swap) arities P pl F0 st H1 H2 H3 H4 H5 H6)))).
+Qed.
+
+(* "never creates a second row for an existing lattice key", serial: after any run of a validated plan of the lattice engine
+   model (LatEngine/LatEval.v) no two rows of a lattice relation share their key - every program, every join_mut (no lattice
+   law, no monotonicity needed), every iteration order, given at most one input row per key *)
+Theorem c05_lattice_one_row_per_key : forall (V : Type) (I : LatSyntax.linterp V) islat jm shuffle swap_oracle arities P pl Rin fuel st,
+  LatSyntax.veqb_ok I -> no_agg P = true -> validate arities P pl = true ->
+  (forall r, islat r = true -> NoDup (map LatSyntax.tkey (Rin r))) ->
+  LatEval.run_plan I islat jm shuffle swap_oracle fuel pl Rin = Some st ->
+  forall r, islat r = true -> NoDup (map LatSyntax.tkey (LatEval.l_rows st r)).
+Proof.
+  intros V I islat jm shuffle swap_oracle arities P pl Rin fuel st H1 H2 H3 H4 H5.
+  exact (LatKeys.lat_run_unique_key_all I H1 islat jm shuffle swap_oracle arities P H2 pl H3 fuel Rin st H4 H5).
+Qed.
+
+(* ... and under ascent_par!, "concurrently running workers deriving the same lattice key at the same time": in EVERY reachable
+   state of one parallel iteration of the lattice head update (Engine/ParLat.v: any lattice, any assignment of keys to key
+   mutexes, any distribution of the contributions over workers, any schedule of atomic steps, finished or not) there is one row
+   per key; rows present before keep their position and key *)
+Theorem c05_parallel_lattice_one_row_per_key : forall (K V : Type) (keqb : K -> K -> bool), (forall a b, keqb a b = true <-> a = b) ->
+  forall (le : V -> V -> Prop) (jm : V -> V -> V * bool), LatSem.lat_laws le jm ->
+  forall mx kfirst dl tt R0 nk0 ot0 ch0 work, ParLatProofs.init_ok keqb le dl tt R0 nk0 ot0 ch0 work ->
+  forall sched,
+    let s := ParLat.run_sched keqb jm mx kfirst true dl tt (ParLat.par_init R0 nk0 ot0 ch0 work) sched in
+    NoDup (map fst (ParLat.lrows s))
+    /\ forall i k v0, nth_error R0 i = Some (k, v0) -> exists c, nth_error (ParLat.lrows s) i = Some (k, c) /\ le v0 c.
+Proof.
+  intros K V keqb Hk le jm Hl mx kfirst dl tt R0 nk0 ot0 ch0 work Hi sched. split.
+  - exact (ParLatProofs.parlat_one_row_per_key keqb Hk le jm Hl mx kfirst true dl tt R0 nk0 ot0 ch0 work Hi sched).
+  - exact (ParLatProofs.parlat_rows_in_place keqb Hk le jm Hl mx kfirst true dl tt R0 nk0 ot0 ch0 work Hi sched).
+Qed.
+
+(* PARTIAL: the parallel lattice statement is per iteration (the per-iteration theorems are not yet composed into a whole
+   parallel lattice engine run: C02's PARTIAL note); the real DashMap entry operation / RwLock / Mutex are assumed atomic
+   (C19 proves the one-winner property for every interleaving of the modelled atomic steps: Props/C19.v
+   c19_cfi_concurrent_one_winner). *)
 
 Print Assumptions c05_inputs_kept_rows_added_once. Print Assumptions c05_rows_are_a_set. Print Assumptions c05_parallel_rows_added_once.
+Print Assumptions c05_parallel_rows_are_a_set. Print Assumptions c05_lattice_one_row_per_key. Print Assumptions c05_parallel_lattice_one_row_per_key.
